@@ -13,6 +13,7 @@ def run(ctx):
     Q.rule_lossy(ctx, "R2", )
     Q.rule_c1(ctx, "R2c", sets)
     Q.rule_leaf_shapes(ctx, "R2s", m)
+    Q.rule_space(ctx, "R2w")
     component_flow(ctx, "R3")
     U.netloc_template(ctx, "R6")
     U.rule_qsl(ctx, "R7")
